@@ -1175,8 +1175,8 @@ def entryCover : List EntryCover := [
   ⟨"_convolve.haar", [``C10_haar_in_bounds], [``C11_wavelet_safe], "safe", ""⟩,
   ⟨"_convolve.wavelet", [``C10_wavelet_in_bounds], [``C11_wavelet_safe], "safe", "a user-supplied coefficient array: its length is `nc` of the theorem"⟩,
   ⟨"_convolve.iwavelet", [``C10_wavelet_in_bounds], [``C11_wavelet_safe], "safe", ""⟩,
-  ⟨"_convolve.daubechies", [``C10_wavelet_in_bounds], [``C11_wavelet_safe], "safe", "the `dcoeffs(code)` table selection is not modelled"⟩,
-  ⟨"_convolve.idaubechies", [``C10_wavelet_in_bounds], [``C11_wavelet_safe], "safe", "the `dcoeffs(code)` table selection is not modelled"⟩,
+  ⟨"_convolve.daubechies", [``C10_wavelet_in_bounds, ``C10_daubechies_tables_in_bounds], [``C11_wavelet_safe], "safe", ""⟩,
+  ⟨"_convolve.idaubechies", [``C10_wavelet_in_bounds, ``C10_daubechies_tables_in_bounds], [``C11_wavelet_safe], "safe", ""⟩,
   ⟨"_convolve.ihaar", [``C10_haar_in_bounds], [``C11_wavelet_safe], "safe", ""⟩,
   ⟨"_convolve.rank_filter", [``C10_filter_table_ok, ``C10_filter_iterator_refines, ``C10_rank_filter_in_bounds, ``C10_rank_filter_needs_rank_guard, ``C10_alloc_pixel_loop_defined], [``C11_rank_guards_imply_pre, ``C11_rank_filter_safe], "safe", ""⟩,
   ⟨"_convolve.mean_filter", [``C10_filter_table_ok, ``C10_filter_iterator_refines, ``C10_alloc_pixel_loop_defined], [``C11_convolve_guards_imply_pre], "pre", "no model of its own (filter iterator + pixel loop); divisor for an empty neighbourhood not modelled"⟩,
